@@ -66,6 +66,9 @@ type equivChecker struct {
 	inprog      map[declKey]bool
 	current     declKey
 	bound       int
+	lock        bool            // the comparison under way cuts data-dependent loops in lockstep
+	lockLoops   map[string]bool // which loops
+	symA, symB  map[string]bool // data-dependent loops seen in the bounded runs of the two versions
 }
 
 func newEquivChecker(verif, repo, outDir string) *equivChecker {
@@ -230,6 +233,7 @@ func (c *equivChecker) check1(k declKey) (res *equivResult) {
 		}
 	}()
 	var r *equivResult
+	c.symA, c.symB = map[string]bool{}, map[string]bool{}
 	for bound := equivBound; bound >= 1; bound-- {
 		c.bound = bound
 		r = c.compare(k, fnNew, fnBase, true)
@@ -244,6 +248,57 @@ func (c *equivChecker) check1(k declKey) (res *equivResult) {
 		// too many paths for this bound: nested data-dependent loops are compared to a smaller one
 		if !(r.Status == "unavailable" && (strings.Contains(r.Detail, "path limit") || strings.Contains(r.Detail, "time budget") || strings.Contains(r.Detail, "too many paths"))) {
 			break
+		}
+	}
+	if r.Status != "equivalent" && (len(c.symA) > 0 || len(c.symB) > 0) {
+		// Some loop depends on symbolic data, so unrolling only covers its first iterations.
+		// Lockstep induction: those loops are cut in both versions at the same arbitrary
+		// loop-head state (corresponding loop-carried variables and written cells are the same
+		// unknowns); the versions must reach each loop in equal states, hand equal states to the
+		// next iteration and leave it alike. That covers every number of iterations.
+		// Only loops whose header has the same shape in both versions can be cut in lockstep; a
+		// loop that was peeled, re-strided, converted or moved into a new helper is unrolled (up
+		// to the bound) from whatever state the cut loops before it leave behind.
+		cuttable := c.cuttableLoops()
+		c.lockLoops = map[string]bool{}
+		addLoops := func() {
+			for _, m := range []map[string]bool{c.symA, c.symB} {
+				for n := range m {
+					if cuttable[n] {
+						c.lockLoops[n] = true
+					}
+				}
+			}
+		}
+		addLoops()
+		c.lock = true
+		var lr *equivResult
+		for bound := equivBound; bound >= 1; bound-- {
+			c.bound = bound
+			for round := 0; round < 5; round++ {
+				// cutting a loop makes what it computes unknown, which can make a later loop
+				// data-dependent in turn: repeat until no further loop turns up
+				before := len(c.lockLoops)
+				lr = c.compare(k, fnNew, fnBase, true)
+				addLoops()
+				if len(c.lockLoops) == before {
+					break
+				}
+			}
+			if !(lr.Status == "unavailable" && (strings.Contains(lr.Detail, "path limit") || strings.Contains(lr.Detail, "time budget") || strings.Contains(lr.Detail, "too many paths"))) {
+				break
+			}
+		}
+		c.lock = false
+		// the induction is the stronger comparison: its answer stands
+		if lr.carries() {
+			lr.Detail = strings.TrimSpace(lr.Detail + fmt.Sprintf(" %d data-dependent loop(s) by lockstep induction", len(c.lockLoops)))
+		} else {
+			lr.Detail = fmt.Sprintf("with %d loop(s) cut in lockstep: %s", len(c.lockLoops), lr.Detail)
+		}
+		r = lr
+		if r.Status == "bounded-equivalent" && r.Bound < 3 {
+			r = &equivResult{Status: "unavailable", Detail: fmt.Sprintf("loops that changed shape were only followed for %d iteration(s)", r.Bound), Pairs: r.Pairs, Queries: r.Queries}
 		}
 	}
 	if r.carries() {
@@ -334,6 +389,10 @@ func (c *equivChecker) compare(k declKey, fnNew, fnBase *ssa.Function, merge boo
 	x.baseRun = false
 	x.deadline = time.Now().Add(equivRunBudget)
 	x.eqAbstract = c.abstraction
+	x.lockstep = c.lock
+	x.lockLoops = c.lockLoops
+	x.lockSigs = nil
+	defer func() { x.lockstep = false; x.symLoops = nil; x.lockEntries = nil }()
 	c.current = k
 	if i := strings.Index(k.name, "$"); i >= 0 {
 		c.current.name = k.name[:i]
@@ -387,6 +446,16 @@ func (c *equivChecker) compare(k declKey, fnNew, fnBase *ssa.Function, merge boo
 		x.boundHits = 0
 		x.baseRun = base
 		x.recvCtr = 0 // the n-th value received is the same unknown in both runs
+		x.lockRunB = base
+		x.lockEntries = nil
+		x.symLoops = map[string]bool{}
+		x.lockShared = map[*Cell]bool{}
+		for cl := range entryCells {
+			x.lockShared[cl] = true
+		}
+		for _, rc := range x.regions {
+			x.lockShared[rc] = true
+		}
 		st := st0.fork()
 		var outs []Out
 		if len(fn.FreeVars) > 0 {
@@ -400,10 +469,21 @@ func (c *equivChecker) compare(k declKey, fnNew, fnBase *ssa.Function, merge boo
 				keep = append(keep, o)
 			}
 		}
+		{
+			for n := range x.symLoops {
+				if base {
+					c.symB[n] = true
+				} else {
+					c.symA[n] = true
+				}
+			}
+		}
 		return keep, x.boundHits
 	}
 	outsA, hitsA := run(fnNew, false)
+	entA := x.lockEntries
 	outsB, hitsB := run(fnBase, true)
+	entB := x.lockEntries
 	if len(outsA) == 0 || len(outsB) == 0 {
 		return &equivResult{Status: "unavailable", Detail: "no path completes within the bound"}
 	}
@@ -418,12 +498,18 @@ func (c *equivChecker) compare(k declKey, fnNew, fnBase *ssa.Function, merge boo
 	base0 := len(st0.pc)
 	log0 := len(st0.log)
 	cmpStart := time.Now()
-	for ia, a := range outsA {
-		for ib, b := range outsB {
+	var pairs func(listA, listB []Out, entries bool) *equivResult
+	pairs = func(listA, listB []Out, entries bool) *equivResult {
+	for ia, a := range listA {
+		for ib, b := range listB {
+			if entries && a.msg != b.msg {
+				continue // states in which different loops are reached are not compared with each other
+			}
 			if time.Since(cmpStart) > 60*time.Second {
 				return &equivResult{Status: "unavailable", Detail: "time budget of the comparison exhausted", Pairs: res.Pairs, Queries: res.Queries}
 			}
-			if a.kind != oRet && a.kind != oPanic || b.kind != oRet && b.kind != oPanic {
+			okKind := func(k outKind) bool { return k == oRet || k == oPanic || (c.lock && k == oCut) }
+			if !okKind(a.kind) || !okKind(b.kind) {
 				return &equivResult{Status: "unavailable", Detail: "a path ends at a loop cut"}
 			}
 			// syntactically contradictory path conditions
@@ -444,12 +530,14 @@ func (c *equivChecker) compare(k declKey, fnNew, fnBase *ssa.Function, merge boo
 			res.Pairs++
 			var goal *Term
 			why := ""
-			if a.kind != b.kind {
+			if a.kind != b.kind || (a.kind == oCut && a.msg != b.msg) {
 				goal = tFalse // the two path conditions must exclude each other
 			} else {
 				cmp := &eqCmp{x: x, sa: a.st, sb: b.st, entry: entryCells, seen: map[[2]*Cell]bool{}}
 				var cs []*Term
-				if a.kind == oRet {
+				if a.kind == oCut && len(a.vals) != len(b.vals) {
+					cs = append(cs, cmp.fail("the versions carry different variables around the loop"))
+				} else if a.kind == oRet || a.kind == oCut {
 					if len(a.vals) != len(b.vals) {
 						return &equivResult{Status: "different", Detail: "result arity"}
 					}
@@ -565,10 +653,97 @@ func (c *equivChecker) compare(k declKey, fnNew, fnBase *ssa.Function, merge boo
 			}
 		}
 	}
+	return nil
+	}
+	if bad := pairs(outsA, outsB, false); bad != nil {
+		return bad
+	}
+	if c.lock {
+		// the states in which the two versions reach each cut loop
+		toOuts := func(recs []lockRec) []Out {
+			var o []Out
+			for _, r := range recs {
+				o = append(o, Out{st: r.st, kind: oCut, vals: r.vals, msg: "reached " + r.key})
+			}
+			return o
+		}
+		if bad := pairs(toOuts(entA), toOuts(entB), true); bad != nil {
+			bad.Detail = "state in which a loop is reached: " + bad.Detail
+			return bad
+		}
+	}
 	if res.Pairs == 0 {
 		return &equivResult{Status: "unavailable", Detail: "no compatible pair of paths"}
 	}
 	return res
+}
+
+// loopsCorrespond: the data-dependent loops of the two versions are the same
+// loops (same function, same position) carrying variables of the same types.
+func (c *equivChecker) loopsCorrespond(fnNew, fnBase *ssa.Function) bool {
+	if len(c.symA) != len(c.symB) {
+		return false
+	}
+	for n := range c.symA {
+		if !c.symB[n] {
+			return false
+		}
+	}
+	x := c.eng.x
+	qual := func(p *types.Package) string { return p.Name() }
+	sig := func(fn *ssa.Function, ord int) (string, bool) {
+		for h, l := range x.loops(fn) {
+			if l.ordinal != ord {
+				continue
+			}
+			var ts []string
+			for _, in := range h.Instrs {
+				phi, ok := in.(*ssa.Phi)
+				if !ok {
+					break
+				}
+				ts = append(ts, types.TypeString(phi.Type(), qual))
+			}
+			sort.Strings(ts)
+			return strings.Join(ts, ","), true
+		}
+		return "", false
+	}
+	// resolve each loop name "pkg.fn#ord" in both versions
+	find := func(name string, base bool) *ssa.Function {
+		for fn := range ssautilAllFunctions(x.prog) {
+			n := fn.String()
+			if base != strings.Contains(n, basePrefix) {
+				continue
+			}
+			if strings.ReplaceAll(n, basePrefix, "") == name {
+				return fn
+			}
+		}
+		return nil
+	}
+	for n := range c.symA {
+		i := strings.LastIndex(n, "#")
+		var ord int
+		fmt.Sscanf(n[i+1:], "%d", &ord)
+		fa := find(n[:i], false)
+		fb := find(n[:i], true)
+		if fa == nil {
+			return false
+		}
+		if fb == nil {
+			fb = fa // an unchanged function: the same loop in both versions
+		}
+		sa, oka := sig(fa, ord)
+		sb, okb := sig(fb, ord)
+		if os.Getenv("VERIF_EQUIV_DEBUG") != "" {
+			fmt.Fprintf(os.Stderr, "loop %s: %v [%s] / %v [%s]\n", n, fa, sa, fb, sb)
+		}
+		if !oka || !okb || sa != sb {
+			return false
+		}
+	}
+	return true
 }
 
 // eqCmp builds the condition "these two values, each in its own final state,
@@ -632,10 +807,10 @@ func (c *eqCmp) eq(a, b Value) *Term {
 			if va.cell == nil && vb.cell == nil {
 				return tTrue
 			}
-			return c.x.valuesEqual(a, b)
+			return c.veq(a, b)
 		}
 		if va.cell == vb.cell {
-			return c.x.valuesEqual(a, b)
+			return c.veq(a, b)
 		}
 		if c.entry[va.cell] || c.entry[vb.cell] {
 			return tFalse // distinct objects, at least one of which the caller knows
@@ -732,7 +907,7 @@ func (c *eqCmp) eq(a, b Value) *Term {
 			}
 			return c.eq(va.val, vb.val)
 		default:
-			return c.x.valuesEqual(a, b)
+			return c.veq(a, b)
 		}
 	case *Str:
 		if vb, ok := b.(*Str); ok {
@@ -762,7 +937,7 @@ func (c *eqCmp) eq(a, b Value) *Term {
 		}
 	case *AbsObj:
 		if _, ok := b.(*AbsObj); ok {
-			return c.x.valuesEqual(a, b)
+			return c.veq(a, b)
 		}
 	case *Func:
 		if vb, ok := b.(*Func); ok {
@@ -1171,4 +1346,75 @@ func (x *Exec) occName(st *State, name string) string {
 	m[name] = n + 1
 	st.occ = m
 	return fmt.Sprintf("%s%s%d", name, occMarker, n)
+}
+
+// cuttableLoops: names (function#ordinal) of the loops that have the same
+// header shape in both versions, and of all loops of unchanged functions.
+func (c *equivChecker) cuttableLoops() map[string]bool {
+	out := map[string]bool{}
+	x := c.eng.x
+	un := c.base.unchangedLoops(c.repo, c.current)
+	changedFn := map[string][]bool{}
+	known := map[string]bool{}
+	for r, same := range un {
+		if fn := c.lookup(r, ""); fn != nil {
+			changedFn[fn.String()] = same
+			known[fn.String()] = true
+		}
+	}
+	mark := func(names map[string]bool) {
+		for n := range names {
+			i := strings.LastIndex(n, "#")
+			fnName := n[:i]
+			var ord int
+			fmt.Sscanf(n[i+1:], "%d", &ord)
+			if same, ok := changedFn[fnName]; ok || known[fnName] {
+				if same != nil && ord < len(same) && same[ord] {
+					out[n] = true
+				}
+				continue
+			}
+			// not a changed declaration that exists in both versions: an unchanged function
+			// (same loop in both runs) or a helper only one version has (never cut)
+			if c.fnInBaseline(fnName) {
+				out[n] = true
+			}
+		}
+	}
+	mark(c.symA)
+	mark(c.symB)
+	_ = x
+	return out
+}
+
+// fnInBaseline: does the function with this SSA name exist in the snapshot?
+func (c *equivChecker) fnInBaseline(ssaName string) bool {
+	for k := range c.base.decls {
+		name := modulePath + "/" + k.dir + "." + k.name
+		if k.recv != "" {
+			if ssaName == "(*"+modulePath+"/"+k.dir+"."+k.recv+")."+k.name || ssaName == "("+modulePath+"/"+k.dir+"."+k.recv+")."+k.name {
+				return true
+			}
+			continue
+		}
+		if ssaName == name {
+			return true
+		}
+	}
+	return false
+}
+
+// veq: equality of two values as the engine's == would decide it; what the
+// engine cannot compare is "not shown equal".
+func (c *eqCmp) veq(a, b Value) (t *Term) {
+	defer func() {
+		if r := recover(); r != nil {
+			if _, ok := r.(engineErr); ok {
+				t = c.fail("values the engine cannot compare (%T, %T)", a, b)
+				return
+			}
+			panic(r)
+		}
+	}()
+	return c.x.valuesEqual(a, b)
 }
